@@ -10,6 +10,7 @@ import math, os, random, shutil, subprocess, sys, tempfile, glob, re
 from concurrent.futures import ThreadPoolExecutor
 from decimal import Decimal
 
+os.environ.setdefault("OMP_NUM_THREADS", "1")     # many runs in parallel: one thread each (no oversubscription, no timeouts under load)
 VERIF = os.path.dirname(os.path.dirname(os.path.abspath(__file__)))
 
 
@@ -321,7 +322,7 @@ def run_one(exe, s, keep=None):
         if s.nframes >= 0:
             cmd += ["--nframes", str(s.nframes)]
         try:
-            r = subprocess.run(cmd, cwd=d, stdout=subprocess.PIPE, stderr=subprocess.PIPE, timeout=120)
+            r = subprocess.run(cmd, cwd=d, stdout=subprocess.PIPE, stderr=subprocess.PIPE, timeout=900)
             status = "ok" if r.returncode == 0 else hexs((r.stdout.decode(errors="replace")[-200:] + r.stderr.decode(errors="replace")[-200:]).strip()[-160:])
         except subprocess.TimeoutExpired:
             status = hexs("timeout")
